@@ -114,6 +114,21 @@ type SeqOp struct {
 	Row   map[string]any   `json:"row"`
 	Table string           `json:"table"`
 	Key   []any            `json:"key"`
+	Table2 string           `json:"table2"` // regrace: the table registered while Table's source is still loading
+	Rows2  []map[string]any `json:"rows2"`
+}
+
+// slowSource is a user-defined table source whose Init takes its time (a file or database load): it reports when Init has begun
+// and finishes it when told to.
+type slowSource struct {
+	stream.TableSource
+	entered, release chan struct{}
+}
+
+func (x *slowSource) Init() error {
+	close(x.entered)
+	<-x.release
+	return x.TableSource.Init()
 }
 
 // unmapRow gives a logged row its original column names back (whole-word, also inside derived names such as "abs(xor)").
@@ -401,6 +416,43 @@ func RunSeq(sc SeqScenario) (evs []Ev, inconclusive string) {
 				srcs[op.Table] = src
 			}
 			in.Log(Ev{"tr": sc.Tr, "e": "table", "name": op.Table, "rows": arows, "err": b2i(err != nil)})
+		case "regrace":
+			// two registrations that overlap: Table's (user-defined) source is still inside Init when Table2 is registered and that call
+			// returns; once both calls have returned both tables hold their new contents
+			rows := make([]map[string]any, len(op.Rows))
+			arows := make([]any, len(op.Rows))
+			for k, r := range op.Rows {
+				rows[k] = decodeRow(r)
+				arows[k] = AbsRow(rows[k])
+			}
+			rows2 := make([]map[string]any, len(op.Rows2))
+			arows2 := make([]any, len(op.Rows2))
+			for k, r := range op.Rows2 {
+				rows2[k] = decodeRow(r)
+				arows2[k] = AbsRow(rows2[k])
+			}
+			slow := &slowSource{TableSource: stream.NewMemoryTableSource(op.Table, op.Keys, rows), entered: make(chan struct{}), release: make(chan struct{})}
+			errc := make(chan error, 1)
+			go func() { errc <- s.RegisterTableSource(slow) }()
+			var err1, err2 error
+			select {
+			case <-slow.entered:
+				src2, e2 := s.RegisterTable(op.Table2, rows2)
+				err2 = e2
+				if e2 == nil {
+					srcs[op.Table2] = src2
+				}
+				close(slow.release)
+				err1 = <-errc
+			case err1 = <-errc: // the registration never called Init (refused)
+				close(slow.release)
+			case <-time.After(3 * time.Second):
+				close(slow.release)
+				err1 = <-errc
+			}
+			delete(srcs, op.Table) // (a user-defined source: no Delete through the driver)
+			in.Log(Ev{"tr": sc.Tr, "e": "table", "name": op.Table, "rows": arows, "err": b2i(err1 != nil)})
+			in.Log(Ev{"tr": sc.Tr, "e": "table", "name": op.Table2, "rows": arows2, "err": b2i(err2 != nil)})
 		case "reregsrc":
 			// the SAME source object handed to RegisterTableSource once more (as a second query sharing the table would do): its
 			// contents, updates included, stay what they are
